@@ -328,6 +328,82 @@ theorem ext_end_point_near_ray (pp pe : Pos Float32) (t : Float32)
       (2 : ℚ) ^ (-100 : Int) ≤ 11 / 16 := by norm_num
   exact ⟨_, h0, by linarith, by linarith⟩
 
+/-! ### the range of the parameter in the cut regime -/
+
+/-- over ℚ: `L ≤ fl64(λ + ℓ)`, `y = fl64(L − λ)`, `τ = fl32(y)` ⟹ `τ ≤ ℓ (1 + 2⁻²³)`, as long as the booked length `λ` so
+far is at most `2²⁷ ℓ` (its rounding unit `2⁻⁵³ λ` must be small against `ℓ`: this is a real effect, a long curve
+followed by a very short segment overshoots more) and `ℓ ≥ 2⁻¹⁰⁰`. -/
+theorem param_range_q (Lq lam ℓ y τ δ δ' : ℚ) (hlam0 : 0 ≤ lam) (hℓ : 0 < ℓ)
+    (hge : Lq ≤ (lam + ℓ) * (1 + δ')) (hδ' : |δ'| ≤ (2 : ℚ) ^ (-53 : Int))
+    (hy : y = (Lq - lam) * (1 + δ)) (hδ : |δ| ≤ (2 : ℚ) ^ (-53 : Int)) (hLl : lam ≤ Lq)
+    (hτ : |τ - y| ≤ (2 : ℚ) ^ (-24 : Int) * |y| + (2 : ℚ) ^ (-150 : Int))
+    (hlℓ : lam ≤ 134217728 * ℓ) (hℓmin : (2 : ℚ) ^ (-100 : Int) ≤ ℓ) :
+    τ ≤ ℓ * (1 + 1 / 8388608) := by
+  have hu : (0 : ℚ) < (2 : ℚ) ^ (-53 : Int) := two_zpow_pos _
+  have u1 : (2 : ℚ) ^ (-53 : Int) ≤ 1 := by norm_num
+  obtain ⟨d1, d2⟩ := abs_le.mp hδ
+  obtain ⟨d1', d2'⟩ := abs_le.mp hδ'
+  have hD0 : 0 ≤ Lq - lam := by linarith
+  have hD : Lq - lam ≤ ℓ * (1 + (2 : ℚ) ^ (-53 : Int) * 134217729) := by
+    have t1 : δ' * (lam + ℓ) ≤ (2 : ℚ) ^ (-53 : Int) * (lam + ℓ) :=
+      mul_le_mul_of_nonneg_right d2' (by linarith)
+    have t2 : (2 : ℚ) ^ (-53 : Int) * (lam + ℓ) ≤ (2 : ℚ) ^ (-53 : Int) * (134217729 * ℓ) :=
+      mul_le_mul_of_nonneg_left (by linarith) hu.le
+    nlinarith
+  have hy0 : 0 ≤ y := by rw [hy]; exact mul_nonneg hD0 (by linarith)
+  have hy1 : y ≤ (Lq - lam) * (1 + (2 : ℚ) ^ (-53 : Int)) := by
+    rw [hy]; exact mul_le_mul_of_nonneg_left (by linarith) hD0
+  rw [abs_of_nonneg hy0] at hτ
+  have hτ1 : τ ≤ y * (1 + (2 : ℚ) ^ (-24 : Int)) + (2 : ℚ) ^ (-150 : Int) := by
+    have := (abs_le.mp hτ).2; linarith
+  have c24 : (0 : ℚ) ≤ 1 + (2 : ℚ) ^ (-24 : Int) := by norm_num
+  have c53 : (0 : ℚ) ≤ 1 + (2 : ℚ) ^ (-53 : Int) := by norm_num
+  have s1 : y * (1 + (2 : ℚ) ^ (-24 : Int)) ≤
+      ℓ * (1 + (2 : ℚ) ^ (-53 : Int) * 134217729) * (1 + (2 : ℚ) ^ (-53 : Int)) * (1 + (2 : ℚ) ^ (-24 : Int)) :=
+    mul_le_mul_of_nonneg_right (le_trans hy1 (mul_le_mul_of_nonneg_right hD c53)) c24
+  have s2 : (2 : ℚ) ^ (-150 : Int) ≤ ℓ * (2 : ℚ) ^ (-50 : Int) := by
+    have : (2 : ℚ) ^ (-150 : Int) = (2 : ℚ) ^ (-100 : Int) * (2 : ℚ) ^ (-50 : Int) := by norm_num
+    rw [this]; exact mul_le_mul_of_nonneg_right hℓmin (two_zpow_pos _).le
+  have cc : (1 + (2 : ℚ) ^ (-53 : Int) * 134217729) * (1 + (2 : ℚ) ^ (-53 : Int)) * (1 + (2 : ℚ) ^ (-24 : Int)) +
+      (2 : ℚ) ^ (-50 : Int) ≤ 1 + 1 / 8388608 := by norm_num
+  have := mul_le_mul_of_nonneg_left cc hℓ.le
+  rw [mul_add] at this
+  have e : ℓ * ((1 + (2 : ℚ) ^ (-53 : Int) * 134217729) * (1 + (2 : ℚ) ^ (-53 : Int)) * (1 + (2 : ℚ) ^ (-24 : Int))) =
+      ℓ * (1 + (2 : ℚ) ^ (-53 : Int) * 134217729) * (1 + (2 : ℚ) ^ (-53 : Int)) * (1 + (2 : ℚ) ^ (-24 : Int)) := by ring
+  rw [e] at this
+  exact le_trans hτ1 (le_trans (add_le_add s1 s2) this)
+
+/-- the statement wanted for the parameter: in the cut regime (`len_k ≤ L ≤ len_{k+1} = len_k ⊕ f64::from(ell)`)
+the `f32` parameter `t = (L − len_k) as f32` satisfies `τ ≤ ℓ(1 + 2⁻²³)`. -/
+def cut_param_range_float_statement : Prop :=
+  ∀ (L lk : Float) (ell : Float32),
+    (lk + (Cvt.up ell : Float)).isFinite = true → (L - lk).isFinite = true →
+    ell.isFinite = true → ((Cvt.down (L - lk) : Float32)).isFinite = true →
+    Scalar.le lk L = true → Scalar.le L (lk + (Cvt.up ell : Float)) = true →
+    0 ≤ toRat lk → toRat lk ≤ 134217728 * toRat32 ell → (2 : ℚ) ^ (-100 : Int) ≤ toRat32 ell →
+    toRat32 (Cvt.down (L - lk) : Float32) ≤ toRat32 ell * (1 + 1 / 8388608)
+
+/-- **the range of the parameter, PARTIAL**: `cut_param_range_float_statement` under two facts about the conversions
+of Model/FloatBits.lean that are *not proved here* (they are bit-level definitions, `upBits` / `downBits` over
+`roundRat`, outside `Float.Model`): `hup` — `f64::from` is exact —, `hdn` — `as f32` is one correct rounding.
+Everything else (the two `f64` roundings of `len_k ⊕ ℓ` and `L ⊖ len_k`, monotonicity of the value) is proved. -/
+theorem cut_param_range_float_partial (L lk : Float) (ell : Float32)
+    (hup : toRat (Cvt.up ell : Float) = toRat32 ell)
+    (hdn : Rnd32 (toRat32 (Cvt.down (L - lk) : Float32)) (toRat (L - lk)))
+    (hfs : (lk + (Cvt.up ell : Float)).isFinite = true) (hfd : (L - lk).isFinite = true)
+    (hlL : Scalar.le lk L = true) (hLs : Scalar.le L (lk + (Cvt.up ell : Float)) = true)
+    (hl0 : 0 ≤ toRat lk) (hlℓ : toRat lk ≤ 134217728 * toRat32 ell)
+    (hpos : 0 < toRat32 ell) (hℓmin : (2 : ℚ) ^ (-100 : Int) ≤ toRat32 ell) :
+    toRat32 (Cvt.down (L - lk) : Float32) ≤ toRat32 ell * (1 + 1 / 8388608) := by
+  obtain ⟨fl, fu⟩ := finite_of_add_finite _ _ hfs
+  obtain ⟨fL, _⟩ := finite_of_sub_finite _ _ hfd
+  obtain ⟨δ', hδ', hs⟩ := add_err_float lk _ fl fu hfs
+  obtain ⟨δ, hδ, hy⟩ := sub_err_float L lk fL fl hfd
+  have h1 := toRat_le_of_le _ _ fL hfs hLs
+  have h2 := toRat_le_of_le _ _ fl fL hlL
+  rw [hs, hup] at h1
+  exact param_range_q _ _ _ _ _ δ δ' hl0 hpos h1 hδ' hy hδ h2 hdn.abs_add hlℓ hℓmin
+
 /-! ### non-vacuity: a concrete cut, evaluated by the kernel -/
 
 section Examples
